@@ -444,6 +444,9 @@ def kck_case(family, timeout=120):
 TOL = 1e-8
 
 
+LEMMAS = {}
+
+
 def m2e_case(family, maxdepth, timeout=120):
     """Executes the real Form.M2E symbolically up to `maxdepth` decisions (start-branch choice + loop exits after 0, 1, ...
     further Newton steps).  On every path that returns, the exit test |E1-E| < tol holds; with the Lipschitz lemma for
@@ -516,8 +519,8 @@ def m2e_case(family, maxdepth, timeout=120):
             else:   # lc = cosh E0 in [1, lm], lm = ch0 + ch1, |u| <= lm |d|
                 lemma = z3.Implies(z3.And(le > 0, lc >= 1, lc <= lm, lu * lu <= lm * lm * ld * ld, ld * ld < t * t),
                                    (le * lc * ld - le * lu) * (le * lc * ld - le * lu) <= 4 * le * le * t * t * lm * lm)
-            return {"residual_identity": res, "step": xstep, "exit_step_small": Holds((xstep < TOL) & (xstep > -TOL)),
-                    "bound_lemma": Holds(SB(lemma))}
+            LEMMAS[family] = lemma          # path-independent: discharged once, by the M2E_lemma group
+            return {"residual_identity": res, "step": xstep, "exit_step_small": Holds((xstep < TOL) & (xstep > -TOL))}
         import signal
 
         def _to(*a):
@@ -527,17 +530,17 @@ def m2e_case(family, maxdepth, timeout=120):
         try:
             E1 = forms.Form.M2E(v["e"], v["M"])
         except TimeoutError:
-            return {"residual_identity": 0, "step": 0, "exit_step_small": Holds(False), "bound_lemma": Holds(True)}
+            return {"residual_identity": 0, "step": 0, "exit_step_small": Holds(False)}
         finally:
             signal.alarm(0)
         if family == "ell":
             res = v["M"] - E1 + v["e"] * math.sin(E1)
-            return {"residual_identity": 0, "step": 0, "exit_step_small": Holds(abs(res) <= 2 * v["e"] * TOL + 1e-12 * (1 + abs(v["M"]))), "bound_lemma": Holds(True)}
+            return {"residual_identity": 0, "step": 0, "exit_step_small": Holds(abs(res) <= 2 * v["e"] * TOL + 1e-12 * (1 + abs(v["M"])))}
         res = v["M"] - v["e"] * math.sinh(E1) + E1
-        return {"residual_identity": 0, "step": 0, "exit_step_small": Holds(abs(res) <= 2 * v["e"] * TOL * math.cosh(E1) + 1e-12 * (1 + abs(v["M"]))), "bound_lemma": Holds(True)}
+        return {"residual_identity": 0, "step": 0, "exit_step_small": Holds(abs(res) <= 2 * v["e"] * TOL * math.cosh(E1) + 1e-12 * (1 + abs(v["M"])))}
 
     def ref(env, v, out):
-        return {"residual_identity": rec.get("alt", 0), "step": rec.get("d", 0), "exit_step_small": None, "bound_lemma": None}
+        return {"residual_identity": rec.get("alt", 0), "step": rec.get("d", 0), "exit_step_small": None}
 
     def lem(v, out):
         return rec.get("lemma", [])
@@ -549,6 +552,31 @@ def m2e_case(family, maxdepth, timeout=120):
 
 class _Stop(Exception):
     pass
+
+
+def m2e_lemma_group(family):
+    """the abstract bound lemma of the M2E exit argument (over fresh reals, independent of any path): with the Lipschitz /
+    convexity bound on sin / sinh and an exit step below tol, the Kepler residual rewritten through the last Newton step is
+    at most 2 e tol (times the cosh bound for the hyperbola)"""
+    import z3
+    from symx import solve
+    le, lu, lc, ld, lm = [z3.Real("lem_" + k) for k in "e u c d m".split()]
+    t = z3.RealVal(TOL)
+    if family == "ell":
+        lemma = z3.Implies(z3.And(le > 0, lu * lu <= ld * ld, lc * lc <= 1, ld * ld < t * t),
+                           (le * lu - le * lc * ld) * (le * lu - le * lc * ld) <= 4 * le * le * t * t)
+    else:
+        lemma = z3.Implies(z3.And(le > 0, lc >= 1, lc <= lm, lu * lu <= lm * lm * ld * ld, ld * ld < t * t),
+                           (le * lc * ld - le * lu) * (le * lc * ld - le * lu) <= 4 * le * le * t * t * lm * lm)
+    s = z3.Solver()
+    s.add(z3.Not(lemma))
+    ob = dict(name=f"M2E/{family}/bound_lemma", smt2=s.sexpr(), trivial=False, expect="unsat", vars=[], timeout=300, solver="z3",
+              desc=f"{family}: abstract bound lemma of the M2E exit argument", replay={"case": "lemma"}, n_constraints=1, tags=["lemma"])
+    tw = z3.Solver()
+    tw.add(le > 0, ld * ld < t * t)
+    twin = dict(name=f"M2E/{family}/bound_lemma/twin", smt2=tw.sexpr(), trivial=False, expect="sat", vars=[], timeout=30, solver="z3",
+                desc="twin", replay=None, n_constraints=1, tags=["twin"])
+    return [ob, twin], {"paths": 1}
 
 
 def m2e_start_case(family):
@@ -789,7 +817,7 @@ def all_cases(tier):          # noqa: F811  (extends the list defined above)
     cs = [sph_def_case(), sph_back_case(), cyl_case(), cyl_back_case()]
     for fam in ("ell", "hyp"):
         cs += [ecc_case(fam), ecc_back_case(fam), mean_case(fam), k2c_case(fam), kck_case(fam, 30 if tier == "quick" else 600),
-               m2e_case(fam, 8 if tier == "quick" else (11 if fam == "ell" else 9), 120 if tier == "quick" else 900), m2e_start_case(fam), infos_case(fam)]
+               m2e_case(fam, 8 if tier == "quick" else 9, 120 if tier == "quick" else 300), m2e_start_case(fam), infos_case(fam)]
     cs += [tle_case(), tle_back_case(), circ_case(False), circ_case(True), equi_case(), c2k_def_case("any")] + \
           [m2e_side_case(k) for k in ((-11, 0, 1, 94) if tier == "quick" else (-200, -11, -2, -1, 0, 1, 2, 3, 94, 200))]
     return cs
@@ -798,6 +826,8 @@ def all_cases(tier):          # noqa: F811  (extends the list defined above)
 def groups(tier):             # noqa: F811
     g = {c.name.replace("/", "_"): (lambda c=c: run_cases([c])) for c in all_cases(tier)}
     g["routing"] = routing_group
+    for fam in ("ell", "hyp"):
+        g[f"M2E_lemma_{fam}"] = (lambda fam=fam: m2e_lemma_group(fam))
     return g
 
 
